@@ -48,7 +48,10 @@ ASSUMPTIONS = ['harness component functions are complex-safe and evaluated with 
                'documented defaults: fd step 1e-6 forward abs, minimum_step 1e-12, cs step 1e-40',
                'cases where a solver reports non-convergence are not judged; complex step across iterative '
                'solvers / cyclic groups is not value-judged (documented caveat), only its state restoration is',
-               'no MPI / parallel FD']
+               'no MPI / parallel FD; directional approximations (check_partials / check_totals directional=True) '
+               'are left to C13 (they raise on the generated models before any state comparison is possible)',
+               'approximated (semi-)totals: 2nd/3rd derivative bounds of the implicit function are evaluated at the '
+               'point (10% slack for the variation over the step); steps <= 1e-3']
 
 MECHANISMS = ('rel-step-frozen-at-first-linearization', 'mixed-wrt-options', 'colored-rel-step-from-single-wrt',
               'colored-cs-sparsity-by-fd-with-cs-step', 'approx-group-with-implicit-comp',
@@ -59,7 +62,7 @@ SCENARIOS = ['partials', 'partials', 'partials', 'colored', 'colored', 'semitota
 
 def shards(tier, seed):
     n = 16 if tier == 'quick' else 64
-    per = 26 if tier == 'quick' else 160
+    per = 24 if tier == 'quick' else 120
     return [{'seed': seed * 1000000 + i * 10000, 'n': per, 'tier': tier} for i in range(n)]
 
 
@@ -284,7 +287,9 @@ def _judge_comp(kit, c, comp, st, events, frozen_x, out, colored=False):
             bound = np.full(D.shape, kit.cs_bound(D))
             T = R = np.zeros(D.shape)
         else:
-            bound, T, R = kit.fd_bound(form, h, M, D, xk, E[o_], 0.0)
+            # stale: measured inconsistency |stored residual - r(inputs, outputs)| of the base state (an outer
+            # iterative solver leaves it at its tolerance); one-sided forms use the stored residual as f(x)
+            bound, T, R = kit.fd_bound(form, h, M, D, xk, E[o_], stale[o_])
         err = np.abs(J - D)
         if not np.all(np.isfinite(J)) or np.any(err > bound):
             i, j = np.unravel_index(np.argmax(np.where(np.isfinite(err), err / bound, np.inf)), err.shape)
@@ -299,10 +304,6 @@ def _judge_comp(kit, c, comp, st, events, frozen_x, out, colored=False):
                         why = 'colored-rel-step-from-single-wrt'
                         break
             if form != 'cs' and not why:
-                # explainable by the stored residual being inconsistent with (inputs, outputs)?
-                bst, _, _ = kit.fd_bound(form, h, M, D, xk, E[o_], stale[o_])
-                if np.all(err <= bst):
-                    obs = 'value(stale-current-residual)'
                 if frozen_x is not None and (opts.get('step_calc') or 'abs') != 'abs':
                     xf = frozen_x[1][o_] if is_self else frozen_x[0][k]
                     hf = kit.doc_step(opts, xf)
@@ -647,7 +648,6 @@ def _run_partials(case, acc):
         return 'partials:%s:%s' % (what, '+'.join(methods))
     first = True
     cells, nobs_tot = [], 0
-    frozen = {}
     with FailureMonitor() as fmon:
         try:
             prob = G.build(spec, hook=rec, comp_factory=kit.comp_factory)
@@ -820,7 +820,11 @@ def _run_colored(case, acc):
                         tol = np.full(Ju.shape, 2.0 * kit.cs_bound(Ju))
                     else:
                         h = kit.doc_step(opts, xk)
-                        _, _, R = kit.fd_bound(kit.eff_form(opts), h, np.zeros(Ju.shape), Ju, xk, ev[o_]['E'])
+                        f_ = ev[o_]['f']
+                        rtrue = (y[o_] + c.get('beta', 0.0) * np.sin(y[o_]) - f_) if c['kind'] == 'imp' \
+                            else (f_ - y[o_])
+                        _, _, R = kit.fd_bound(kit.eff_form(opts), h, np.zeros(Ju.shape), Ju, xk, ev[o_]['E'],
+                                               2.0 * np.abs(r[o_] - rtrue))
                         tol = 8.0 * R
                     d = np.abs(Jc - Ju)
                     if Jc.shape != Ju.shape or np.any(d > tol):
@@ -1002,9 +1006,11 @@ def _run_group(case, acc):
                 acc.count('skip-point:oracle')
                 break
             worst = 0.0
+            du_cur = np.zeros(fm.nstate)     # |stored outputs - exactly converged states| (solver tolerance of outer loops)
             for n in fm.state_names:
                 got = np.asarray(prob.get_val(G.abs_name(spec, n))).ravel()
                 ref = fm.value(n, u, p).ravel()
+                du_cur[slice(*fm.soff[n])] = np.abs(got - ref)
                 worst = max(worst, float(np.max(np.abs(got - ref)) / max(1.0, np.max(np.abs(ref)))))
             if worst > 1e-7:
                 acc.count('skip-point:values-differ-from-reference')
@@ -1061,7 +1067,9 @@ def _run_group(case, acc):
                         continue
                     pcol = p[wa:wb]
                     h = kit.doc_step(opts, pcol)
-                    bound, T, R = _total_bound(kit, form, h, D, M2[a:b, wa:wb], M3[a:b, wa:wb], eu[a:b], pcol)
+                    # one-sided forms use the stored outputs as g(x): their measured inconsistency counts once more
+                    eu_rows = eu[a:b] + (0.5 * du_cur[a:b] if form in ('forward', 'backward') else 0.0)
+                    bound, T, R = _total_bound(kit, form, h, D, M2[a:b, wa:wb], M3[a:b, wa:wb], eu_rows, pcol)
                     err = np.abs(J - D)
                     maxbound = max(maxbound or 0.0, float(bound.max(initial=0.0)))
                     judged_blocks += 1
@@ -1084,7 +1092,7 @@ def _run_group(case, acc):
                         if not why and frozen is not None and form != 'cs' and (opts.get('step_calc') or 'abs') != 'abs' \
                                 and w in frozen:
                             hf = kit.doc_step(opts, frozen[w])
-                            bf, _, _ = _total_bound(kit, form, hf, D, M2[a:b, wa:wb], M3[a:b, wa:wb], eu[a:b], pcol)
+                            bf, _, _ = _total_bound(kit, form, hf, D, M2[a:b, wa:wb], M3[a:b, wa:wb], eu_rows, pcol)
                             if np.all(err <= bf):
                                 why = 'rel-step-frozen-at-first-linearization'
                         out.append((why or cell + ('+iterative' if iterative else ''), 'value',
